@@ -108,3 +108,41 @@ def rule_py_ndjson_writer_header(out, pyr):
     out.check(bad == 0, rid, "NDJsonProtocolWriter.__init__/header written", pyr.pos(rel, w), "%d completing paths, each writes the header document" % len(paths),
               "%d of %d completing paths of the constructor do not write the header document: it is written later, if at all — a protocol whose steps are all empty streams "
               "produces an empty file, which the reader rejects" % (bad, len(paths)))
+
+
+def rule_py_available_bytes_come_from_the_stream(out, pyr):
+    rid = "PB3"
+    out.rule(rid, "_binary.py CodedInputStream: the count of available bytes (`self._last_read_count`) is only ever 0 or computed from a `readinto(...)` result, and the buffer is the "
+                  "stream object's own `bytearray(...)` — the reader never takes somebody else's memory (a BytesIO's getbuffer(), the caller's bytes) for bytes it has read, "
+                  "because then the underlying stream's position no longer says what was consumed and a refill delivers the same bytes again instead of an end of file", 2)
+    tree, rel = pyr.parse_py(out, "_binary.py")
+    cl = pyr.classes(tree)
+    if "CodedInputStream" not in cl:
+        out.undecided(rid, "anchor/CodedInputStream", rel, "class not found")
+        return
+    n = 0
+    for mname, fn in pyr.methods(cl["CodedInputStream"]).items():
+        for st in ast.walk(fn):
+            targets, value = [], None
+            if isinstance(st, ast.Assign):
+                targets, value = st.targets, st.value
+            elif isinstance(st, ast.AugAssign):
+                targets, value = [st.target], st.value
+            for t in targets:
+                if not (isinstance(t, ast.Attribute) and isinstance(t.value, ast.Name) and t.value.id == "self"):
+                    continue
+                if t.attr == "_last_read_count":
+                    n += 1
+                    has_readinto = any(isinstance(c, ast.Call) and isinstance(c.func, ast.Attribute) and c.func.attr in ("readinto", "readinto1") for c in ast.walk(value))
+                    zero = isinstance(value, ast.Constant) and value.value == 0
+                    out.check(zero or has_readinto, rid, "CodedInputStream.%s/_last_read_count#%d" % (mname, n), pyr.pos(rel, st), "0 or a readinto() result",
+                              "`%s`: the number of available bytes is not what a readinto() delivered — bytes are declared read that the stream object has not handed out, so its position "
+                              "is behind the decoder's; at a truncation point the refill re-delivers old bytes (the header) as payload instead of raising EOFError" % ast.unparse(st)[:100])
+                elif t.attr == "_buffer":
+                    n += 1
+                    own = isinstance(value, ast.Call) and isinstance(value.func, ast.Name) and value.func.id == "bytearray"
+                    out.check(own, rid, "CodedInputStream.%s/_buffer#%d" % (mname, n), pyr.pos(rel, st), "the reader's own bytearray",
+                              "`%s`: the read buffer is not the reader's own bytearray; decoding in place out of another object's memory leaves the stream position untouched, "
+                              "and every refill starts from the beginning of the data again" % ast.unparse(st)[:100])
+    if n == 0:
+        out.undecided(rid, "anchor/assignments", rel, "no assignment to _last_read_count / _buffer found")
